@@ -40,3 +40,15 @@ class ElementTree:
 
     def getroot(self):
         return self._root
+
+    def write(self, file_or_filename, encoding=None, xml_declaration=None, default_namespace=None, method=None,
+              short_empty_elements=True):
+        # assumed: the serialisation of the tree is written to the file (one write of the whole document)
+        file_or_filename.write(XmlDocument(self._root))
+
+
+class XmlDocument:
+    """stands for the text of the serialised tree"""
+
+    def __init__(self, root):
+        self.root = root
